@@ -479,6 +479,24 @@ pub fn corpus(thorough: bool) -> Vec<DetCase> {
             }),
         ));
     }
+    // two clashing paths whose names are related by the suffix one of them gets: Block (two shapes) and Block1
+    // (two shapes) - whichever group is renamed first, the names are Block1, Block2, Block11, Block12
+    {
+        let mut defs = vec![];
+        let mut fields = vec![];
+        for name in ["Block", "Block1"] {
+            for (k, t) in [U8, U16].into_iter().enumerate() {
+                fields.push((format!("{}_{}", name.to_lowercase(), k), Field::new(Ty::Named(defs.len(), vec![]))));
+                defs.push(Def::strukt(&["m", "f"], name, &[], named(vec![("x", t)])));
+            }
+        }
+        let host = defs.len();
+        defs.push(Def::strukt(&["m", "h"], "Host", &[], Fields::Named(fields)));
+        regs.push((
+            "two clashing paths, one name the other's plus a suffix".into(),
+            RegSrc::Prog(Program { defs, roots: vec![Ty::Named(host, vec![])] }),
+        ));
+    }
     // generics
     let g = GenState {
         form: BodyForm::Named,
